@@ -97,7 +97,7 @@ def run(ctx):
             pi = rng.randrange(len(pars))
             p, mp = pars[pi], m.paras[pi]
             names = sorted({n for n, _, _ in mp})
-            op = rng.choice(["first", "last", "before", "after", "sort", "set", "del", "insert", "append"])
+            op = rng.choice(["first", "last", "before", "after", "sort", "sort-tie", "set", "del", "insert", "append"])
             exp_exc = None
             try:
                 if op in ("first", "last", "before", "after"):
@@ -135,6 +135,13 @@ def run(ctx):
                     ops.append([pi, "sort_fields"])
                     m.paras[pi] = sorted(mp, key=lambda e: e[0].lower())
                     p.sort_fields()
+                elif op == "sort-tie":
+                    # a key with many ties: the sort is stable with respect to the CURRENT order
+                    which = rng.choice(["constant", "first letter", "length"])
+                    kf = {"constant": lambda nm: 0, "first letter": lambda nm: str(nm)[:1].lower(), "length": lambda nm: len(str(nm))}[which]
+                    ops.append([pi, "sort_fields", "key=" + which])
+                    m.paras[pi] = sorted(mp, key=lambda e: kf(e[0]))
+                    p.sort_fields(key=kf)
                 elif op == "set":
                     name = rng.choice(names)
                     occ = m.occ(pi, name)
